@@ -27,6 +27,50 @@ structure CFn where
   blocks : List (Nat × List CIns)
   deriving Repr, Inhabited
 
+/-! ### the static condition under which no call assigns a result that does not exist
+
+  `FuncGen::instruction`'s `Call` arm takes `inst_results(inst)[0]` whenever the LIR call has a
+  `to`; a callee whose signature has no return value makes that an index panic while compiling.
+  `callsOk L`: every call of `L` whose result is assigned names a function of `L` none of whose
+  blocks contains `Return(None)` (a decidable check, run in the driver on the LIR of every
+  program of the tie). -/
+
+/-- one instruction: an assigned call goes to a function `rv` says returns a value; `rs`: this
+    function is one of them, so it must not contain `Return(None)` -/
+def insOk1 (rv : String → Bool) (rs : Bool) : LIns → Bool
+  | .call (some _) f _ => rv f
+  | .ret none => !rs
+  | _ => true
+
+def insOk (rv : String → Bool) (rs : Bool) (ins : List LIns) : Bool := ins.all (insOk1 rv rs)
+
+def blocksOk (rv : String → Bool) (rs : Bool) (bs : List (Nat × List LIns)) : Bool :=
+  bs.all (fun b => insOk rv rs b.2)
+
+def progOk (rv : String → Bool) (L : List LFn) : Bool :=
+  L.all (fun fn => blocksOk rv (rv fn.name) fn.blocks)
+
+/-- `f` names a function of `L` without `Return(None)` -/
+def rvOf (L : List LFn) (f : String) : Bool :=
+  match L.find? (fun fn => fn.name == f) with
+  | some fn => fn.blocks.all (fun b => b.2.all (fun i => match i with | .ret none => false | _ => true))
+  | none => false
+
+def callsOk (L : List LFn) : Bool := progOk (rvOf L) L
+
+/-! the same condition at the source of `lir::lower`: `C01Lir.lowerProg` gives a call a `to` only when
+  `retInfoOf P` says the callee returns a value (`Lemmas/C01CgCalls.lowerProg_progOk`) -/
+
+/-- what `retInfoOf P` says of `f`: it returns a value -/
+def rvM (P : List MFn) (f : String) : Bool :=
+  match retInfoOf P f with
+  | some (_, true) => true
+  | _ => false
+
+/-- every function of `P` is the one its name finds, as far as `retVal` goes -/
+def namesOk (P : List MFn) : Bool :=
+  P.all (fun fn => !(rvM P fn.name) || fn.retVal)
+
 section
 variable [FloatOps]
 
@@ -121,8 +165,8 @@ def cExec (call : String → List CVal → Option (Option CVal)) : List CIns →
       | some (t, _), some c => cExec call rest (σ.set t c)
       | none, _ => cExec call rest σ
       -- the callee returned no value although one is assigned: the real builder panics on
-      -- `inst_results(inst)[0]`; the LIR lowering never produces it; let through with the variable unchanged
-      | some _, none => cExec call rest σ
+      -- `inst_results(inst)[0]` (the call instruction has no result): no code
+      | some _, none => none
     | none => none
   | .jump b _ :: _, σ => some (.goto b σ)
   | .switch v cases otherwise :: _, σ =>
